@@ -367,6 +367,10 @@ impl Scenario for C08 {
         let mut rng = Rng::new(derive(run_seed, 1));
         let nfiles = rng.usize(1, 3);
         let malformed = rng.chance(0.15);
+        // text-to-text data: explicit targets that differ from the input, and inputs that occur
+        // more than once with different targets (several references per source)
+        let explicit_targets = rng.chance(0.3);
+        let mut earlier_inputs: Vec<String> = vec![];
         let mut files = vec![];
         let mut id = 0u64;
         for _ in 0..nfiles {
@@ -383,15 +387,25 @@ impl Scenario for C08 {
                     });
                     continue;
                 }
-                if rng.chance(0.5) {
+                if explicit_targets && rng.chance(0.45) {
+                    let input = if !earlier_inputs.is_empty() && rng.chance(0.7) {
+                        rng.pick(&earlier_inputs).clone()
+                    } else {
+                        format!("source text {} ab ba", rng.below(4))
+                    };
+                    earlier_inputs.push(input.clone());
+                    s.push_str(&format!("{{\"input\": \"{input}\", \"target\": \"{text}\"}}\n"));
+                } else if rng.chance(0.5) {
+                    earlier_inputs.push(text.clone());
                     s.push_str(&format!("{{\"input\": \"{text}\"}}\n"));
                 } else {
+                    earlier_inputs.push(text.clone());
                     s.push_str(&format!("{{\"input\": \"{text}\", \"target\": \"{text}\"}}\n"));
                 }
             }
             files.push(s);
         }
-        let task = match rng.below(3) {
+        let task = match if explicit_targets { rng.range(1, 2) } else { rng.below(3) } {
             0 => Task::WsCorr(Tok::Byte(true, rng.chance(0.5), rng.chance(0.4))),
             1 => Task::Gen(rng.chance(0.5), gen_tok(&mut rng), if rng.chance(0.5) { Some(" >> ".into()) } else { None }),
             _ => Task::CondGen(gen_tok(&mut rng), gen_tok(&mut rng)),
